@@ -81,3 +81,39 @@ Print Assumptions C03_residual_formula.
 Print Assumptions C03_real_coefficients.
 Print Assumptions C03_damped_geometric.
 Print Assumptions C03_stop_bound.
+
+From QVT Require Import EckartYoung Penrose.
+From QV Require Import NumpySem.
+Close Scope R_scope.
+
+Section Pinv.
+Variable C : CRing.
+Notation qmat := (qmat C).
+(* "the unique matrix satisfying the four Penrose equations": at most one matrix does, for every A of every shape and rank, over any
+   commutative component ring (no division) *)
+Theorem C03_penrose_solution_is_unique m n (A X Y : qmat) : penrose C m n A X -> penrose C m n A Y -> meq n m X Y.
+Proof. exact (penrose_unique C m n A X Y). Qed.
+(* ... and for A = U diag(s) V^H it is V diag(d) U^H with d the reciprocals of the non-zero values (s d s = s, d s d = d): the limit of the
+   iterates V diag(t_k / s) U^H of both recurrences (t_k -> 1 on the non-zero values, C03_damped_geometric / C03_third_order_cubic) *)
+Theorem C03_limit_satisfies_penrose m n r (U V : qmat) (s d : nat -> C) :
+  meq r r (qmm m (qherm U) U) qmid -> meq r r (qmm n (qherm V) V) qmid ->
+  (forall k, k < r -> (s k * d k * s k = s k)%cr) -> (forall k, k < r -> (d k * s k * d k = d k)%cr) ->
+  penrose C m n (usv r U s V) (usv r V d U).
+Proof. exact (factorised_pseudoinverse_is_penrose C m n r U V s d). Qed.
+Theorem C03_pseudoinverse_is_the_limit m n r (U V X : qmat) (s d : nat -> C) :
+  meq r r (qmm m (qherm U) U) qmid -> meq r r (qmm n (qherm V) V) qmid ->
+  (forall k, k < r -> (s k * d k * s k = s k)%cr) -> (forall k, k < r -> (d k * s k * d k = d k)%cr) ->
+  penrose C m n (usv r U s V) X -> meq n m X (usv r V d U).
+Proof. exact (pseudoinverse_is_the_factorised_one C m n r U V X s d). Qed.
+End Pinv.
+(* the hypotheses are satisfiable with a zero value: U = V = I_2, s = (1, 0), d = (1, 0) over the integers *)
+Example C03_penrose_hypotheses_hold :
+  let s : nat -> ZR := fun k => if Nat.eqb k 0 then 1%Z else 0%Z in
+  meq 2 2 (qmm 2 (qherm (@qmid ZR)) qmid) qmid /\ (forall k, k < 2 -> (s k * s k * s k = s k)%cr).
+Proof.
+  cbv zeta. split.
+  - rewrite (qherm_id ZR 2). apply (qmm_id_l ZR 2 2).
+  - intros k Hk. destruct k as [|[|k]]; [reflexivity|reflexivity|lia].
+Qed.
+Print Assumptions C03_penrose_solution_is_unique.
+Print Assumptions C03_limit_satisfies_penrose.
